@@ -165,4 +165,119 @@ theorem recSpec_of_rule (hinf : r.fromYear = INT_MIN ∧ r.toYear = INT_MAX)
       rw [hsm (occ y) a.1 (by simp only [ysNs, NPD] at *; omega)]
 
 end
+
+/-! ### from the evaluated check to the hypotheses -/
+
+theorem allYears_spec (lo hi : Int) (p : Int → Bool) (h : allYears lo hi p = true) (y : Int) (h1 : lo ≤ y) (h2 : y ≤ hi) :
+    p y = true := by
+  simp only [allYears, List.all_eq_true, List.mem_range] at h
+  have := h (y - lo).toNat (by omega)
+  have e : lo + ((y - lo).toNat : Int) = y := by omega
+  rw [e] at this; exact this
+
+theorem ruleOK_sound (yo : YearOffset) (lo hi : Int) (h : ruleOK yo lo hi = true) : RuleOK yo (occOf yo) lo hi := by
+  simp only [ruleOK, Bool.and_eq_true, decide_eq_true_eq] at h
+  obtain ⟨⟨h1, h2⟩, h3⟩ := h
+  have key : ∀ y, lo ≤ y → y ≤ hi → yo.occurrence y = .ok (occOf yo y) ∧ ysNs y ≤ occOf yo y ∧ occOf yo y < ysNs (y + 1) := by
+    intro y hy1 hy2
+    have := allYears_spec lo hi _ h3 y hy1 hy2
+    simp only [occOf]
+    cases ho : yo.occurrence y with
+    | error e => rw [ho] at this; simp at this
+    | ok v =>
+      rw [ho] at this
+      change (decide (ysNsM y ≤ v) && decide (v < ysNsM (y + 1))) = true at this
+      rw [Bool.and_eq_true] at this
+      refine ⟨rfl, ?_, ?_⟩
+      · show ysNs y ≤ v
+        exact of_decide_eq_true this.1
+      · show v < ysNs (y + 1)
+        exact of_decide_eq_true this.2
+  exact ⟨⟨h1, h2⟩, fun y a b => (key y a b).1, fun y a b => (key y a b).2⟩
+
+theorem recSpec_shift {r : Recurrence} {std ps : Int} {T : Int → Int} {lo hi : Int} (h : RecSpec r std ps T lo hi) :
+    RecSpec r std ps (fun y => T (y + 1)) lo (hi - 1) := by
+  refine ⟨?_, ?_, ?_⟩
+  · intro y h1 h2; exact h.mono (y + 1) (by omega) (by omega)
+  · intro y t h1 h2 h3 h4; exact h.next (y + 1) t (by omega) (by omega) h3 h4
+  · intro y t h1 h2 h3 h4; exact h.prev (y + 1) t (by omega) (by omega) h3 h4
+
+theorem recSpec_shrink {r : Recurrence} {std ps : Int} {T : Int → Int} {lo hi : Int} (h : RecSpec r std ps T lo hi) :
+    RecSpec r std ps T lo (hi - 1) := by
+  refine ⟨?_, ?_, ?_⟩
+  · intro y h1 h2; exact h.mono y h1 (by omega)
+  · intro y t h1 h2 h3 h4; exact h.next y t h1 (by omega) h3 h4
+  · intro y t h1 h2 h3 h4; exact h.prev y t h1 (by omega) h3 h4
+
+/-- the evaluated per-year check of a tail yields the alternation hypotheses of `altmap_partition`:
+    result 1 = daylight rule first in each year, result 2 = standard rule first (transitions re-indexed) -/
+theorem tailOK_sound (m : AltMap) (lo hi : Int) :
+    (tailOK m lo hi = 1 → AltSpec m (tdOf m) (tsOf m) lo hi) ∧
+    (tailOK m lo hi = 2 → AltSpec m (tdOf m) (fun y => tsOf m (y + 1)) lo (hi - 1)) := by
+  unfold tailOK
+  by_cases hbase : tailBase m lo hi = true
+  · simp only [hbase, if_true]
+    have hb := hbase
+    simp only [tailBase, Bool.and_eq_true, decide_eq_true_eq] at hb
+    obtain ⟨⟨⟨⟨⟨⟨⟨⟨⟨⟨⟨⟨b1, b2⟩, b3⟩, b4⟩, b5⟩, b6⟩, b7⟩, b8⟩, b9⟩, b10⟩, b11⟩, b12⟩, b13⟩ := hb
+    -- rule offsets
+    cases hroD : m.dstRec.yo.ruleOffset m.std 0 with
+    | error e => rw [hroD] at b10; simp at b10
+    | ok roD =>
+    cases hroS : m.stdRec.yo.ruleOffset m.std m.dstRec.savings with
+    | error e => rw [hroS] at b11; simp at b11
+    | ok roS =>
+    rw [hroD] at b10; rw [hroS] at b11
+    simp only [Bool.and_eq_true, decide_eq_true_eq] at b10 b11
+    have rD := recSpec_of_rule (r := m.dstRec) (std := m.std) (ps := 0) (ro := roD) ⟨b1, b2⟩ hroD b10
+      ⟨b8, b9⟩ (ruleOK_sound _ _ _ b12)
+    have rS := recSpec_of_rule (r := m.stdRec) (std := m.std) (ps := m.dstRec.savings) (ro := roS) ⟨b3, b4⟩ hroS b11
+      (by rw [b5]; omega) (ruleOK_sound _ _ _ b13)
+    have eD : (fun y => occOf m.dstRec.yo y - roD * NPS) = tdOf m := by
+      funext y; simp [tdOf, roOf, hroD]
+    have eS : (fun y => occOf m.stdRec.yo y - roS * NPS) = tsOf m := by
+      funext y; simp [tsOf, roOf, hroS]
+    rw [eD] at rD; rw [eS] at rS
+    by_cases ha : altD m lo hi = true
+    · simp only [ha, if_true]
+      refine ⟨fun _ => ⟨rD, rS, ?_, ⟨b8, b9, b6, b7⟩, b5⟩, (fun h => by omega)⟩
+      intro y h1 h2
+      have := allYears_spec lo hi _ ha y h1 h2
+      simp only [Bool.and_eq_true, Bool.or_eq_true, decide_eq_true_eq] at this
+      refine ⟨this.1, fun hlt => ?_⟩
+      rcases this.2 with h | h
+      · omega
+      · exact h
+    · simp only [ha, if_false, Bool.false_eq_true]
+      by_cases hs : altS m lo hi = true
+      · simp only [hs, if_true]
+        refine ⟨(fun h => by omega), fun _ => ⟨recSpec_shrink rD, recSpec_shift rS, ?_, ⟨b8, b9, b6, b7⟩, b5⟩⟩
+        intro y h1 h2
+        have a1 := allYears_spec lo hi _ hs y h1 (by omega)
+        have a2 := allYears_spec lo hi _ hs (y + 1) (by omega) (by omega)
+        simp only [Bool.and_eq_true, Bool.or_eq_true, decide_eq_true_eq] at a1 a2
+        refine ⟨?_, fun _ => a2.1⟩
+        rcases a1.2 with h | h
+        · omega
+        · exact h
+      · simp only [hs, if_false, Bool.false_eq_true]
+        exact ⟨(fun h => by omega), (fun h => by omega)⟩
+  · simp only [hbase, if_false, Bool.false_eq_true]
+    exact ⟨(fun h => by omega), (fun h => by omega)⟩
+
+/-- **Tail partition from the evaluated check** (daylight-first zones): between consecutive daylight
+    transitions the alternating map returns the interval containing the instant and is constant on it. -/
+theorem tail_partition_of_tailOK (m : AltMap) (lo hi : Int) (h : tailOK m lo hi = 1)
+    (y t : Int) (hy1 : lo < y) (hy2 : y + 1 < hi) (h1 : tdOf m y ≤ t) (h2 : t < tdOf m (y + 1)) :
+    ∃ z, m.get t = .ok z ∧ z.s ≤ t ∧ t < z.e ∧ (∀ u, z.s ≤ u → u < z.e → m.get u = .ok z) ∧
+      (z.e = tsOf m y ∨ z.e = tdOf m (y + 1)) :=
+  altmap_partition ((tailOK_sound m lo hi).1 h) y t hy1 hy2 h1 h2
+
+/-- the same for standard-first zones (southern hemisphere), transitions re-indexed -/
+theorem tail_partition_of_tailOK_stdFirst (m : AltMap) (lo hi : Int) (h : tailOK m lo hi = 2)
+    (y t : Int) (hy1 : lo < y) (hy2 : y + 1 < hi - 1) (h1 : tdOf m y ≤ t) (h2 : t < tdOf m (y + 1)) :
+    ∃ z, m.get t = .ok z ∧ z.s ≤ t ∧ t < z.e ∧ (∀ u, z.s ≤ u → u < z.e → m.get u = .ok z) ∧
+      (z.e = tsOf m (y + 1) ∨ z.e = tdOf m (y + 1)) :=
+  altmap_partition ((tailOK_sound m lo hi).2 h) y t hy1 hy2 h1 h2
+
 end Pyoda.C04
